@@ -20,6 +20,62 @@ SPEC = os.path.join(vlib.SPECS, "crash")
 SIZE = {"quick": (3, 1, 1), "thorough": (7, 2, 4)}   # blocks, crash depth, scripts (seeds)
 
 
+def validate_traces(res, seed, tier, work, trace_files):
+    """Trace validation in the narrow sense: the event logs of all real lives, concatenated, must be a behaviour of Crash.tla
+    (TraceCrash.tla: one spec action per line, accepted iff every line is consumed).  A rejection names the line; the life
+    it belongs to is reported and removed, and the rest is validated again."""
+    lines = []
+    for tfn in trace_files:
+        with open(tfn) as fh:
+            lines += fh.read().splitlines()
+    total, lives, rejected = len(lines), sum(1 for l in lines if '"ev":"trace"' in l), 0
+    self_test(work, lines)
+    for attempt in range(6):
+        p = os.path.join(work, "trace.ndjson")
+        with open(p, "w") as fh:
+            fh.write("\n".join(lines) + "\n")
+        r = vlib.run_tlc(SPEC, "TraceCrash", "TraceCrash.cfg", os.path.join(work, "tlc-trace"), files={"trace.ndjson": p}, workers=1, timeout=3000)
+        if r["ok"]:
+            break
+        bad = r["distinct"]          # one state per consumed line plus the initial state: line `bad` was not a step of the specification
+        if any("Invariant" in v for v in r["violated"]):
+            bad -= 1                 # the state after consuming that line violates Verify
+        bad = max(1, min(bad, len(lines)))
+        start = max(i for i in range(bad) if '"ev":"trace"' in lines[i])
+        end = next((i for i in range(start + 1, len(lines)) if '"ev":"trace"' in lines[i]), len(lines))
+        hdr, ev = json.loads(lines[start]), json.loads(lines[bad - 1])
+        rejected += 1
+        what = "verify-not-ok-in-a-real-state" if any("Invariant" in v for v in r["violated"]) else "trace-rejected"
+        sig = "crash:%s:at-%s-%s" % (what, ev["ev"], ev.get("name") or ev.get("kind") or "")
+        rp = vlib.save_replay(work, "C08_trace_%d.json" % attempt, {"engine": "crash", "signature": sig, "seed": seed, "tier": tier, "life": hdr, "event": ev,
+                                                                    "events_of_the_life": [json.loads(x) for x in lines[start:end]][:400], "line_in_life": bad - start})
+        res.mismatch("C08", sig, "the real node's life (crash plan %s%s) is not a behaviour of Crash.tla: event %d of the life, %s" % (
+            hdr["plan"], ", crash inside the commit" if hdr["torn"] else "", bad - start, json.dumps({k: v for k, v in ev.items() if k not in ("plan", "script")})), rp)
+        lines = lines[:start] + lines[end:]
+        if not lines:
+            break
+    return {"trace_lines": total, "lives": lives, "lives_rejected": rejected, "cmd": r["cmd"]}
+
+
+def self_test(work, lines):
+    """The binding is demonstrated in every run: a corrupted logged field and a removed event must each be rejected at that line."""
+    commits = [i for i, l in enumerate(lines) if '"ev":"commit"' in l]
+    begins = [i for i, l in enumerate(lines) if '"ev":"begin"' in l]
+    if len(commits) < 8:
+        raise Infra("too few events for the binding self-test")
+    for name, mut in (("corrupt", lambda ls: ls.__setitem__(commits[6], json.dumps(dict(json.loads(ls[commits[6]]), pool=json.loads(ls[commits[6]])["pool"] + 1)))),
+                      ("dropped", lambda ls: ls.__delitem__(begins[5]))):
+        ls = lines[:400]
+        mut(ls)
+        p = os.path.join(work, "trace-selftest.ndjson")
+        with open(p, "w") as fh:
+            fh.write("\n".join(ls) + "\n")
+        r = vlib.run_tlc(SPEC, "TraceCrash", "TraceCrash.cfg", os.path.join(work, "tlc-selftest"), files={"trace.ndjson": p}, workers=1, timeout=900)
+        want = (commits[6] if name == "corrupt" else begins[5]) + 1
+        if r["ok"] or r["distinct"] != want:
+            raise Infra("binding self-test '%s': the damaged trace should be rejected at line %d, TLC consumed %d lines" % (name, want, r["distinct"]))
+
+
 def run(res, prop, tier, seed, work, replay=None):
     res.level = "fault_enumeration"
     mc = vlib.model_check(SPEC, "Crash", "Crash.cfg", os.path.join(work, "mc"), timeout=900)
@@ -27,6 +83,7 @@ def run(res, prop, tier, seed, work, replay=None):
     nb, depth, nscripts = SIZE[tier]
     recs = os.path.join(work, "recs.ndjson")
     open(recs, "w").close()
+    traces = []
     for i in range(nscripts):
         out = vlib.fresh_dir(os.path.join(work, "rec%d" % i))
         env = dict(os.environ, VERIF_OUT=out, VERIF_SEED=str(seed * 100 + i), VERIF_BLOCKS=str(nb), VERIF_CRASH_DEPTH=str(depth))
@@ -36,12 +93,14 @@ def run(res, prop, tier, seed, work, replay=None):
             raise Infra("crash recorder failed:\n" + "\n".join(l for l in (p.stdout or "").splitlines() if "INFO" not in l and "DEBUG" not in l and "WARN" not in l)[-2000:])
         with open(recs, "a") as fh:
             fh.write(open(part).read())
+        traces.append(os.path.join(out, "trace.ndjson"))
     st, mism = vlib.validate_records(SPEC, "CrashRecords", "CrashRecords.cfg", work, recs, chunk=5000, with_reason=True)
     for i, (r, parts) in enumerate(mism):
         sig = "crash:%s:after-%s" % (parts[1], "+".join(r["after"]) if r["after"] else "-")
         rp = vlib.save_replay(work, "C08_%d.json" % i, {"engine": "crash", "signature": sig, "seed": seed, "tier": tier, "record": r}) if i < 30 else ""
         res.mismatch("C08", sig, "crash plan %s (after commit %s; verify=%s): check=%s restart=%s final==uncrashed: %s"
                      % (r["plan"], r["after"], r["verify"], r["check"][:80], r["restart"][:120], r["final"] == r["expected"]), rp)
+    tstats = validate_traces(res, seed, tier, work, traces)
     all_recs = vlib.read_ndjson(recs)
     plans = [r for r in all_recs if r["fn"] in ("crash", "torn")]
     torn = [r for r in plans if r["fn"] == "torn"]
@@ -49,7 +108,7 @@ def run(res, prop, tier, seed, work, replay=None):
     un = next(r for r in all_recs if r["fn"] == "uncrashed")
     res.coverage.update({
         "evaluations": len(plans), "distinct_nontrivial": len({json.dumps([r["plan"], r["verify"], r["commits"], r.get("torn"), r["fn"]]) for r in plans}),
-        "crashes_inside_a_commit": len(torn), "torn_images_by_meta_page": dict(collections.Counter(r["torn"]["meta"] for r in torn)),
+        "trace_validation": tstats, "crashes_inside_a_commit": len(torn), "torn_images_by_meta_page": dict(collections.Counter(r["torn"]["meta"] for r in torn)),
         "rule": "one crash plan per commit boundary of the scripted life (the database file copied by the commit hook right after the commit; also the created-but-empty file), "
                 "each executed with and without the integrity verification first; plus, for every commit, the images of the write-prefix model (file before the commit grown to its new size, "
                 "the first 0 / 1 / half / all changed data pages written in ascending order, optionally half of the next page, meta page unwritten or half written); thorough: for every such image also every commit boundary of the restarted run (double crash); "
